@@ -297,6 +297,10 @@ pub struct SchedCase {
     /// executed while the merge thread is held
     pub during: Vec<Op>,
     pub suffix: Vec<Op>,
+    /// the n-th read of a source doc store by the merge thread fails (once): the merge may fail, but a merge that
+    /// reports success must be complete
+    #[serde(default)]
+    pub read_fault: Option<u8>,
 }
 pub struct Sched;
 impl Sub for Sched {
@@ -334,12 +338,12 @@ impl Sub for Sched {
             // the writer is dropped while its merge is held; a new writer (same Index) continues
             1 => Just(Op::Reopen),
         ];
-        (cfg, prop::collection::vec(prefix_op, 4..30), 0u8..3, 0u8..10, prop::collection::vec(during_op, 1..8), prop::collection::vec(op_strategy(true), 0..10))
-            .prop_map(|(cfg, prefix, gate_kind, gate_nth, during, suffix)| SchedCase { cfg, prefix, gate_kind, gate_nth, during, suffix })
+        (cfg, prop::collection::vec(prefix_op, 4..30), 0u8..3, 0u8..10, prop::collection::vec(during_op, 1..8), prop::collection::vec(op_strategy(true), 0..10), prop::option::weighted(0.25, 0u8..12))
+            .prop_map(|(cfg, prefix, gate_kind, gate_nth, during, suffix, read_fault)| SchedCase { cfg, prefix, gate_kind, gate_nth, during, suffix, read_fault })
             .boxed()
     }
     fn mandatory_labels(&self, _t: Tier) -> Vec<&'static str> {
-        vec!["gate_reached", "commit_while_merge_held", "delete_committed_while_merge_held", "rollback_while_merge_held", "merge_result_ok", "delete_all_while_merge_held"]
+        vec!["gate_reached", "commit_while_merge_held", "delete_committed_while_merge_held", "rollback_while_merge_held", "merge_result_ok", "delete_all_while_merge_held", "read_fault_fired_in_merge"]
     }
     fn run(&self, c: &SchedCase, cx: &Ctx) -> CaseResult {
         let mut env = Env::new(c.cfg.clone())?;
@@ -363,6 +367,10 @@ impl Sub for Sched {
             _ => K::Terminate,
         };
         let gate = sd.add_gate(GateSpec { thread: "merge_thread".into(), kind: Some(kind), path_suffix: String::new(), nth: c.gate_nth as usize, max_hold: Duration::from_millis(400) });
+        if let Some(nth) = c.read_fault {
+            sd.set_faults(vec![crate::simdir::FaultRule { kinds: vec![K::Read], thread: "merge_thread".into(), path_suffix: ".store".into(), nth: nth as usize, permanent: false, locks: false }]);
+            cx.label("read_fault_armed_on_source_store");
+        }
         let fut = env.writer.as_mut().unwrap().merge(&ids);
         let reached = sd.wait_reached(gate, Duration::from_millis(300));
         let commits_before = env.commits;
@@ -386,6 +394,11 @@ impl Sub for Sched {
         sd.release(gate);
         // NB: the returned SegmentMeta pins the merged segment's files in the inventory: keep only the verdict
         let merge_res: Result<(), ()> = fut.wait().map(|_| ()).map_err(|_| ());
+        if c.read_fault.is_some() {
+            cx.label_if(sd.faults_fired() > 0, "read_fault_fired_in_merge");
+            cx.label_if(sd.faults_fired() > 0 && merge_res.is_err(), "merge_failed_on_read_fault");
+            sd.clear_faults();
+        }
         // whatever happened to the merge: the searchable content is the committed model
         env.verify("after_merge_released")?;
         for op in &c.suffix {
